@@ -52,7 +52,7 @@ HASHSEEDS = ["0", "1", "2", "12345"]
 
 
 def budget(tier):
-    return int(os.environ.get("VERIF_BUDGET", 0)) or {"quick": 64, "thorough": 600}[tier]
+    return int(os.environ.get("VERIF_BUDGET", 0)) or {"quick": 56, "thorough": 600}[tier]
 
 
 # ---------------------------------------------------------------- generation (pure, no pharmpy import)
